@@ -101,17 +101,16 @@ Definition dec_ip4 (d : list byte) : res tree :=
 
 (* IPv6 extension headers. Sizes are 8*(HEL+1) computed without wrap-around; a header that
    does not fit is an error *)
-(* hop-by-hop options: type, length, data; each must lie inside the option area *)
-Fixpoint check_opts (fuel : nat) (o : list byte) : res unit :=
+(* hop-by-hop options: type, length, data, read from the data following the header's two
+   fixed bytes until the header size is reached; an option may not run past the data *)
+Fixpoint check_opts (fuel : nat) (n size : N) (o : list byte) : res unit :=
   match fuel with
   | O => Fuel
   | S f =>
-    match o with
-    | [] => Ok tt
-    | _ => if blen o <? 2 then Err else
-           (l <- at_ o 1 ;;
-            if blen o - 2 <? l then Err else (r <- from o (l + 2) ;; check_opts f r))%res
-    end
+    if size <=? n then Ok tt else
+    if blen o <? 2 then Err else
+    (l <- at_ o 1 ;;
+     if blen o - 2 <? l then Err else (r <- from o (l + 2) ;; check_opts f (n + l + 2) size r))%res
   end.
 
 Definition dec_hbh (d : list byte) : res (tree * N * N) :=       (* header, next header, size *)
@@ -119,8 +118,8 @@ Definition dec_hbh (d : list byte) : res (tree * N * N) :=       (* header, next
   (nh <- at_ d 0 ;; hel <- at_ d 1 ;;
    let size := 8 * (hel + 1) in
    if blen d <? size then Err else
-   area <- sl d 2 size ;;
-   _ <- check_opts (S (length area)) area ;;
+   area <- sl d 2 size ;; opts <- from d 2 ;;
+   _ <- check_opts (S (length d)) 2 size opts ;;
    Ok (T KHbh [VN nh; VN hel; VB area] [], nh, size))%res.
 
 Definition dec_routing (d : list byte) : res (tree * N * N) :=
